@@ -85,10 +85,11 @@ def rst(
     if nl or ("\n" in answer and nl is None):
         answer += "\n" + " " * indent
 
-    # If the text ends in a double-quote, append a period.
+    # If the text ends in a double-quote or in a backslash, append a period.
     # This ensures that we do not get a parse error when this output is
-    # followed by triple-quotes.
-    if answer.endswith('"'):
+    # followed by triple-quotes (a backslash would escape the first of them,
+    # in a raw literal too).
+    if answer.endswith('"') or answer.endswith("\\"):
         answer += "."
 
     # Done; return the answer.
